@@ -36,6 +36,7 @@ def plan(tier, seed):
     for i in range(k):
         shards.append({'name': 'frames-%d' % i, 'fn': 'shard_frames', 'args': {'part': i, 'parts': k}})
     shards.append({'name': 'documented-names', 'fn': 'shard_documented', 'args': {}})
+    shards.append({'name': 'default-size-batch', 'fn': 'shard_big_batch', 'args': {}})
     for i in range(1 if tier == 'quick' else 4):
         shards.append({'name': 'real-pool-%d' % i, 'fn': 'shard_real_pool', 'args': {'part': i}})
     return shards
@@ -82,8 +83,8 @@ def check_batch(sh, heuristic, label, frame, triplets, origin, sample=False):
     codes = {}
     for c in cols:
         vals = frame[c].tolist()
-        if vals and all(isinstance(v, int) and not isinstance(v, bool) for v in vals):
-            codes[c] = pipe.codes_sorted(vals)               # integer column: categories sorted numerically
+        if vals and all(isinstance(v, (int, float)) and not isinstance(v, bool) for v in vals):
+            codes[c] = pipe.codes_sorted(vals)               # numeric column: categories sorted numerically
         else:
             codes[c] = pipe.codes_sorted([str(v) if not isinstance(v, str) else v for v in vals])
     cache = {}
@@ -154,12 +155,14 @@ def shard_frames(sh, part, parts):
             # defined on the category codes of the contents
             for c in cols:
                 distinct = sorted(set(data[c]))
-                style = rng.choice(['small', 'negative', 'huge', 'sparse'])
-                base_ = {'small': 0, 'negative': -len(distinct) // 2 - 1, 'huge': 2 ** 31 - 2, 'sparse': -7}[style]
+                style = rng.choice(['small', 'negative', 'huge', 'sparse', 'float'])
+                base_ = {'small': 0, 'negative': -len(distinct) // 2 - 1, 'huge': 2 ** 31 - 2, 'sparse': -7, 'float': 0}[style]
                 step = 1 if style != 'sparse' else 1000003
                 perm = list(range(len(distinct)))
                 rng.shuffle(perm)
                 lut = {v: base_ + step * perm[i] for i, v in enumerate(distinct)}
+                if style == 'float':       # real-valued column: several values inside one integer interval
+                    lut = {v: 0.25 * perm[i] - 1.0 for i, v in enumerate(distinct)}
                 data[c] = [lut[v] for v in data[c]]
             classes = {c: 'int' for c in cols}
         if heuristic == 'max-value-coverage' and rng.random() < 0.5 and n >= 1000:
@@ -190,6 +193,29 @@ def shard_frames(sh, part, parts):
         sh.case((heuristic, mode, core.h64(sorted((c, tuple(v)) for c, v in data.items()))), nontrivial and heuristic != 'Constant', '%s/%s/%s' % (heuristic, 'target-only' if mode == 'True' else 'pairwise', via),
                 sample={'heuristic': heuristic, 'mode': mode, 'via': via, 'rows': n, 'columns': cols, 'alphabets': classes, 'first_row': [data[c][0] for c in cols],
                         'triplets': [[a, b, float(s)] for a, b, s in triplets[:4]]} if t % 12 == 0 else None)
+
+
+def shard_big_batch(sh):
+    """One batch of the default size (2^14 rows) with high-cardinality columns for every heuristic (sums of products of codes
+    exceed 2^31 here; int8/int16/int32 code dtypes all occur)."""
+    import pandas as pd
+    cr = pipe.fresh_core_ranking()
+    captured = []
+    install_hook(cr, captured)
+    rng, nprng = sh.rng('big'), sh.nprng('big')
+    n = 2 ** 14
+    lab = nprng.integers(0, 4, n)
+    data = {'hi': ['k%05d' % v for v in nprng.integers(0, 3000, n)], 'mid': ['m%04d' % v for v in (lab * 150 + nprng.integers(0, 150, n))],
+            'lo': ['l%d' % v for v in nprng.integers(0, 90, n)], 'idlike': ['u%05d' % (i % 9000) for i in range(n)], 'label': ['c%d' % v for v in lab]}
+    cols = list(data)
+    df = pd.DataFrame(data, columns=cols)
+    for heuristic in (['correlation-Pearson', 'max-value-coverage', 'MI-numba-3mr'] if sh.tier == 'quick' else ['correlation-Pearson', 'max-value-coverage', 'MI-numba-3mr', 'MI-numba-randomized', 'MI']):
+        args = pipe.make_args(heuristic=heuristic, target_ranking_only='False' if heuristic == 'correlation-Pearson' else 'True', combination_number_upper_bound=10 ** 6)
+        del captured[:]
+        ok, _ = sh.call('triplet=heuristic(codes)', 'mixed_rank_graph', cr.mixed_rank_graph, df, args, pipe.SyncPool(), pipe.NullPbar())
+        if ok and captured:
+            nt = check_batch(sh, heuristic, 'label', captured[-1][0], captured[-1][1], 'default-size-batch')
+            sh.case((heuristic, 'big-batch'), nt, heuristic + '/default-size-batch', sample={'heuristic': heuristic, 'rows': n, 'cardinalities': {c: len(set(v)) for c, v in data.items()}})
 
 
 def harvest_documented_heuristics():
